@@ -18,6 +18,12 @@ DecLeaf(leaf, p) ==
   ELSE IF leaf.ty = "float" /\ p.intvalued THEN [leaf EXCEPT !.ty = "int"] \* 5.0 is written as 5 and read as an int
   ELSE leaf
 
+\* expression.go:394-406 - the bounds of a range are decoded into untyped fields, so a number has been a float64 before
+\* toIntIfNecessary looks at it (p.f64ty, p.f64v: the sensor's float64 arithmetic; TLC has no 64-bit numbers)
+DecBound(leaf, p) == IF leaf.op = "LIT" /\ leaf.ty \in {"int","float"} THEN [leaf EXCEPT !.ty = p.f64ty, !.v = p.f64v]
+                     ELSE DecLeaf(leaf, p)
+DecB(T, ps, k) == IF T.op \in JLeafOps THEN DecBound(T, ps[k + 1]) ELSE [op |-> "BAD", why |-> "range bound is not a leaf"]
+
 \* number of leaves of a subtree, in the order the harness lists the profiles (left, right; list items; range bounds)
 RECURSIVE NL(_)
 NL(T) == CASE T.op \in JLeafOps -> 1
@@ -31,8 +37,8 @@ RECURSIVE DecEnc(_,_,_)
 DecEnc(T, ps, k) ==
   CASE T.op \in JLeafOps -> DecLeaf(T, ps[k + 1])
     [] T.op \in {"NOT","MUST","MUST_NOT","FUZZY","BOOST"} -> [T EXCEPT !.l = DecEnc(T.l, ps, k)]
-    [] T.op = "RANGE" -> [T EXCEPT !.l = DecEnc(T.l, ps, k), !.lo = DecEnc(T.lo, ps, k + NL(T.l)),
-                                   !.hi = DecEnc(T.hi, ps, k + NL(T.l) + NL(T.lo))]
+    [] T.op = "RANGE" -> [T EXCEPT !.l = DecEnc(T.l, ps, k), !.lo = DecB(T.lo, ps, k + NL(T.l)),
+                                   !.hi = DecB(T.hi, ps, k + NL(T.l) + NL(T.lo))]
     [] T.op = "IN" -> [T EXCEPT !.l = DecEnc(T.l, ps, k),
                                 !.items = [i \in DOMAIN T.items |-> DecLeaf(T.items[i], ps[k + NL(T.l) + i])]]
     [] OTHER -> [T EXCEPT !.l = DecEnc(T.l, ps, k), !.r = DecEnc(T.r, ps, k + NL(T.l))]
